@@ -283,7 +283,7 @@ theorem TriA.makeRef_go {n m : String} (hm : m ≠ n) (orig : Nat) :
         have hr := refTo_name (o := o) (m := m) (obj := obj) (fun re rn hh => hfo m re rn (by rw [hobj, hh]))
         have hq : NamedOpt m (some (refTo o m obj)) := fun re rn hh => hr re rn (Option.some.inj hh)
         have tail : ∀ refDepth : Nat, TriA n
-            (if (!(isConstant m && refDepth == 0) && !isFuncObj obj) = true then do
+            (if (!(isConstant m && refDepth == 0) && !(isFuncObj obj && refDepth == 0)) = true then do
                 let __r ← E.modifyFrame orig fun f => { f with getMiss := f.getMiss + 1 }
                 Pure.pure (some (refTo o m obj))
               else Pure.pure (some (refTo o m obj))) (NamedOpt m) := by
@@ -318,7 +318,7 @@ theorem TriA.envGet_lookup {n m : String} (hm : m ≠ n) (e : Nat) (f : Frame) (
            else do
              let tgt ← refValue re rn
              let __do_lift ← E.getFrame re
-             if (!(isConstant rn && __do_lift.depth == 0) && !isFuncObj tgt) = true then do
+             if (!(isConstant rn && __do_lift.depth == 0) && !(isFuncObj tgt && __do_lift.depth == 0)) = true then do
                  E.modifyFrame e fun f => { f with getMiss := f.getMiss + 1 }
                  Pure.pure (some (Obj.ref re rn))
                else Pure.pure (some (Obj.ref re rn))
